@@ -1899,4 +1899,136 @@ theorem writeOver_eq_iff (old new : Str) : writeOver old new = new ↔ old.lengt
     rw [List.drop_eq_nil_of_le h, List.append_nil]
 
 
+/-! ### the output sinks of `buf format` (stdout, `-o file`, `-o dir`) and summaries -/
+
+theorem polyVal_shift (s : List Nat) : ∀ h, polyVal h s = h * hashB ^ s.length + polyVal 0 s := by
+  induction s with
+  | nil => intro h; simp [polyVal]
+  | cons c s ih =>
+    intro h
+    have e1 : polyVal h (c :: s) = polyVal (h * hashB + c) s := rfl
+    have e2 : polyVal 0 (c :: s) = polyVal (0 * hashB + c) s := rfl
+    rw [e1, e2, ih (h * hashB + c), ih (0 * hashB + c), List.length_cons, Nat.pow_succ]
+    grind
+
+theorem polyVal_append (h : Nat) (a b : List Nat) :
+    polyVal h (a ++ b) = polyVal h a * hashB ^ b.length + polyVal 0 b := by
+  have : polyVal h (a ++ b) = polyVal (polyVal h a) b := by
+    unfold polyVal; rw [List.foldl_append]
+  rw [this, polyVal_shift b]
+
+theorem mod_combine (x y z p : Nat) : (x % p * y + z % p) % p = (x * y + z) % p := by
+  rw [Nat.add_mod (x * y) z p, Nat.add_mod (x % p * y) (z % p) p, Nat.mod_mod, Nat.mul_mod (x % p) y p,
+    Nat.mod_mod, ← Nat.mul_mod]
+
+theorem summ_nil : summ [] = Summ.empty := rfl
+
+theorem summ_append (a b : List Nat) : summ (a ++ b) = (summ a).append (summ b) := by
+  unfold summ Summ.append
+  simp only [List.length_append, polyVal_append, Nat.mod_mod]
+  congr 1
+  exact (mod_combine _ _ _ _).symm
+
+theorem summS_nil : summS [] = Summ.empty := rfl
+
+theorem summS_append (a b : Str) : summS (a ++ b) = (summS a).append (summS b) := by
+  unfold summS; rw [List.map_append, summ_append]
+
+theorem sinkOut_cons (f : WFile) (fs : List WFile) :
+    sinkOut (f :: fs) = (if f.target then f.fmt.getD [] else []) ++ sinkOut fs := by
+  unfold sinkOut
+  cases h : f.target <;> simp [h]
+
+theorem sinkOut_append (a b : List WFile) : sinkOut (a ++ b) = sinkOut a ++ sinkOut b := by
+  unfold sinkOut; rw [List.filter_append, List.flatMap_append]
+
+theorem sinkOut_length (fs : List WFile) :
+    (sinkOut fs).length = ((fs.filter (·.target)).map fun f => (f.fmt.getD []).length).sum := by
+  induction fs with
+  | nil => rfl
+  | cons f fs ih =>
+    rw [sinkOut_cons, List.length_append, ih]
+    cases h : f.target <;> simp [h]
+
+theorem toS_fmt (f : WFile) : (f.toS.fmt).getD Summ.empty = summS (f.fmt.getD []) := by
+  unfold WFile.toS
+  cases f.fmt <;> rfl
+
+theorem sinkSumm_go (fs : List WFile) : ∀ pre : Str,
+    ((fs.map WFile.toS).filter (·.target)).foldl (fun acc f => acc.append (f.fmt.getD Summ.empty)) (summS pre)
+      = summS (pre ++ sinkOut fs) := by
+  induction fs with
+  | nil => intro pre; simp [sinkOut]
+  | cons f fs ih =>
+    intro pre
+    rw [sinkOut_cons, List.map_cons, List.filter_cons]
+    have ht : f.toS.target = f.target := rfl
+    rw [ht]
+    cases h : f.target
+    · simp only [Bool.false_eq_true, if_false, List.nil_append]
+      exact ih pre
+    · simp only [if_true, List.foldl_cons]
+      rw [toS_fmt, ← summS_append, ih, List.append_assoc]
+
+theorem sinkSumm_eq (fs : List WFile) : sinkSumm (fs.map WFile.toS) = summS (sinkOut fs) := by
+  have := sinkSumm_go fs []
+  rw [summS_nil, List.nil_append] at this
+  exact this
+
+theorem sfmtStepOk_toS (fs : List WFile) : sfmtStepOk (fs.map WFile.toS) = fmtStepOk fs := by
+  unfold sfmtStepOk fmtStepOk
+  rw [List.all_map]
+  congr 1
+  funext f
+  simp only [Function.comp, WFile.toS, Option.isSome_map]
+
+theorem sinkCut_cons (n : Nat) (f : WFile) (fs : List WFile) :
+    sinkCut n (f :: fs) = (if f.target then (f.fmt.getD []).take n else []) ++ sinkCut n fs := by
+  unfold sinkCut
+  cases h : f.target <;> simp [h]
+
+theorem sinkCut_length_le (n : Nat) (fs : List WFile) : (sinkCut n fs).length ≤ (sinkOut fs).length := by
+  induction fs with
+  | nil => exact Nat.le_refl _
+  | cons f fs ih =>
+    rw [sinkCut_cons, sinkOut_cons, List.length_append, List.length_append]
+    cases f.target
+    · simpa using ih
+    · simp only [if_true, List.length_take]; omega
+
+/-- one `Read` per file loses nothing exactly when no targeted output is longer than the buffer -/
+theorem sinkCut_eq_iff (n : Nat) (fs : List WFile) :
+    sinkCut n fs = sinkOut fs ↔ ∀ f ∈ fs, f.target = true → (f.fmt.getD []).length ≤ n := by
+  induction fs with
+  | nil => simp [sinkCut, sinkOut]
+  | cons f fs ih =>
+    rw [sinkCut_cons, sinkOut_cons]
+    constructor
+    · intro h
+      have hl := congrArg List.length h
+      simp only [List.length_append] at hl
+      have h2 := sinkCut_length_le n fs
+      cases ht : f.target
+      · rw [ht] at h
+        simp only [Bool.false_eq_true, if_false, List.nil_append] at h
+        intro g hg hgt
+        rcases List.mem_cons.mp hg with rfl | hg
+        · rw [ht] at hgt; exact nomatch hgt
+        · exact ih.mp h g hg hgt
+      · rw [ht] at h hl
+        simp only [if_true, List.length_take] at hl
+        have hlen : (f.fmt.getD []).length ≤ n := by omega
+        rw [if_pos rfl, if_pos rfl, List.take_of_length_le hlen] at h
+        have h3 := List.append_cancel_left h
+        intro g hg hgt
+        rcases List.mem_cons.mp hg with rfl | hg
+        · exact hlen
+        · exact ih.mp h3 g hg hgt
+    · intro h
+      have hrest := ih.mpr (fun g hg => h g (List.mem_cons_of_mem _ hg))
+      rw [hrest]
+      cases ht : f.target
+      · rfl
+      · rw [if_pos rfl, if_pos rfl, List.take_of_length_le (h f (List.mem_cons_self ..) ht)]
+
 end BufModel.Annot
